@@ -129,6 +129,11 @@ def generate(rng, tier):
             yield ("r", canon.canon_fs(f))
         else:
             yield ("r", canon.rand_runs(rng))
+    for a in ([2, 0, 0, 0, 0, 0, 0, 0], [0, 5, 1, 0, 0, 0, 0, 0], [3, 3, 0, 0, 1, 1, 0, 0]):
+        for tail in ("\n", "\n\n", "\r\n", " ", "\t", "x\n"):
+            yield ("r", [["print", list(a)], [tail, [0] * 8]])
+            yield ("r", [["p", list(a)], [tail, [0] * 8], ["q", list(a)]])
+            yield ("r", [[tail, [0] * 8], ["p", list(a)]])
     # (c) around the grammar
     for s in NEAR:
         yield ("f", s)
